@@ -461,6 +461,8 @@ class Engine:
     def get_path(self, v, path, name='?'):
         for step in path:
             if step[0] == 'f':
+                if isinstance(v, IntV) and v.ty == 'Pubkey' and step[1] == 0:
+                    continue
                 if isinstance(v, EnumV):
                     raise Exception('field of enum without downcast')
                 if isinstance(v, StructV):
@@ -1041,6 +1043,26 @@ class Engine:
             if isinstance(a_, IntV) and isinstance(b_, IntV) and a_.ty == b_.ty and a_.ty in ('Pubkey',) + tuple(INT_RANGES):
                 e_ = a_.e == b_.e
                 return BoolV(e_ if mm.group(2) == 'eq' else z3.Not(e_))
+        if re.match(r'^anchor_lang::prelude::Pubkey::new_from_array$|Pubkey::new_from_array$', c):
+            arr = self.deref_val(args[0])
+            if isinstance(arr, StructV):
+                items = [arr.fields.get(i) for i in range(32)]
+                if all(isinstance(x, IntV) and z3.is_int_value(z3.simplify(x.e)) for x in items):
+                    return IntV(z3.IntVal(int.from_bytes(bytes(z3.simplify(x.e).as_long() for x in items), 'little') + (1 << 40)), 'Pubkey')
+                if '__pk' not in arr.fields: arr.fields['__pk'] = IntV(z3.Int(arr.name + '.pk'), 'Pubkey')
+                return arr.fields['__pk']
+        mm = re.match(r'^<\[u8; 32\] as PartialEq>::(eq|ne)$', c)
+        if mm and len(args) == 2:
+            a_, b_ = self.deref_val(args[0]), self.deref_val(args[1])
+            if isinstance(a_, IntV) and isinstance(b_, IntV):
+                e_ = a_.e == b_.e
+                return BoolV(e_ if mm.group(1) == 'eq' else z3.Not(e_))
+        mm = re.match(r'^<&(.+?) as PartialEq(?:<&.+>)?>::(eq|ne)$', c)
+        if mm and len(args) == 2 and isinstance(args[0], RefV) and isinstance(args[1], RefV):
+            a1 = self.get_path(args[0].cell.val, args[0].path); b1 = self.get_path(args[1].cell.val, args[1].path)
+            inner = mm.group(1)
+            r_ = self.model_call(st, f'<{inner} as PartialEq>::{mm.group(2)}', [a1, b1])
+            if r_ is not None: return r_
         # ---- Anchor / Pubkey / PDA models (keys are uninterpreted scalars; sha256 derivation is an uninterpreted function)
         if re.match(r'^<anchor_lang::prelude::(AccountLoader|Account|InterfaceAccount|Signer|Program|Interface|SystemAccount|UncheckedAccount|Sysvar)<.*> as AsRef<anchor_lang::prelude::AccountInfo<.*>>>::as_ref$', c):
             o = self.deref_val(args[0])
@@ -1129,10 +1151,19 @@ class Engine:
             d = d.as_long() if z3.is_int_value(d) else d
             return EnumV('Option', d, {1: {0: RefV(lst.cell, lst.path + (('i', i),))}})
         if re.match(r'^core::slice::<impl \[.*\]>::last$', c):
-            lst = args[0]; lv = self.deref_val(lst); ln = lv.fields['__len'].e
-            # fork-free: only support via symbolic index -> use ITE over elements' scalar fields lazily: return ref with symbolic idx
-            st.pc.append(ln >= 1)
-            return EnumV('Option', 1, {1: {0: ('LASTREF', lst)}})
+            lst = args[0]; lv = self.deref_val(lst)
+            if '__len' in lv.fields:
+                ln = lv.fields['__len'].e
+                alts = [(ln == 0, lambda ns, a2: EnumV('Option', 0, {}))]
+                for k in range(LIST_K):
+                    def mk(k):
+                        def f(ns, a2):
+                            l2 = a2[0]; lv2 = self.deref_val(l2)
+                            if k not in lv2.fields: lv2.fields[k] = self.ex.fresh(lv2.fields['__elemty'], f'{lv2.name}[{k}]')
+                            return EnumV('Option', 1, {1: {0: RefV(l2.cell, l2.path + (('i', k),))}})
+                        return f
+                    alts.append((ln == k + 1, mk(k)))
+                return ForkResult(alts)
         if re.match(r'^Vec::<u8>::len$', c):
             v = self.deref_val(args[0])
             if '__len' not in v.fields:
@@ -1258,13 +1289,17 @@ class Engine:
     def iter_search(self, st, kind, it, cf, env, by_ref, flt_arg=False):
         """position / find / any / all / filter-next / filter-count over a fixed-length array iterator"""
         n = self.iter_len(it)
-        if not isinstance(n, int): return None
+        if n is None: return None
         i0 = it.fields['__idx']
         preds = []
-        for k in range(i0, n):
+        bound = n if isinstance(n, int) else LIST_K          # symbolic length: unrolled to LIST_K (fresh() assumes len <= LIST_K)
+        for k in range(i0, bound):
             ref = self.iter_elem_ref(it, k)
             arg = RefV(Cell(ref)) if by_ref else ref
-            preds.append((k, self.closure_bool(st, cf, [RefV(Cell(env)), arg])))
+            pk = self.closure_bool(st, cf, [RefV(Cell(env)), arg])
+            if not isinstance(n, int): pk = z3.And(k < n, pk)
+            preds.append((k, pk))
+        if not isinstance(n, int): n = bound
         if kind == 'any':
             it.fields['__idx'] = n; return BoolV(z3.Or([p for _, p in preds]) if preds else z3.BoolVal(False))
         if kind == 'all':
